@@ -74,7 +74,9 @@ def gen_cases(tier, seed):
 
     structured = []
     for d in (C2S, S2C):
-        for vk in ('char', 'strip_cr', 'prefix'):
+        for vk in ('char', 'strip_cr', 'prefix', 'trail_space', 'trail_tab',
+                   'trail_ws', 'double_cr', 'add_comment', 'cut_tail',
+                   'case'):
             structured.append(['version', d, vk])
         for f in range(10):
             for le in LIST_EDITS:
@@ -218,6 +220,29 @@ class HandshakeMITM:
                     c = line[i]
                     nc = c + 1 if c < 0x7e else c - 1
                     new = line[:i] + bytes([nc]) + line[i+1:] + b'\r\n'
+                    self.changed, self.covered = True, True
+                elif e[2] in ('trail_space', 'trail_tab', 'trail_ws',
+                              'double_cr', 'add_comment'):
+                    # the identification string is everything up to CR LF:
+                    # whitespace or text added in front of it changes V_C/V_S
+                    tail = {'trail_space': b' ', 'trail_tab': b'\t',
+                            'trail_ws': self.rng.choice(
+                                [b'  ', b' \t ', b'\x0b', b'\x0c',
+                                 b'\t\t']),
+                            'double_cr': b'\r',
+                            'add_comment': b' x'}[e[2]]
+                    new = line + tail + b'\r\n'
+                    self.changed, self.covered = True, True
+                elif e[2] == 'cut_tail':
+                    new = line[:-1] + b'\r\n'
+                    self.changed, self.covered = len(line) > 9, True
+                elif e[2] == 'case':
+                    i = next((j for j in range(len(line) - 1, 7, -1)
+                              if chr(line[j]).isalpha()), None)
+                    if i is None:
+                        return None
+                    new = line[:i] + bytes([line[i] ^ 0x20]) + \
+                        line[i+1:] + b'\r\n'
                     self.changed, self.covered = True, True
                 else:
                     new = b'SSH-1.99-' + line[8:] + b'\r\n'
